@@ -182,8 +182,14 @@ fn has_class(r: &RunResult, class: &str) -> bool {
     r.violations.iter().any(|v| v.class == class)
 }
 
+/// a violation of the class that no recorded finding accounts for (the one a report is about: a run may also contain
+/// violations that ARE accounted for, and the minimiser must not drift onto those)
+fn has_unaccounted(r: &RunResult, check: &str, class: &str, findings: &run::Findings) -> bool {
+    r.violations.iter().any(|v| v.class == class && findings.open_match(check, &v.sig).is_none())
+}
+
 /// Greedy delta-debugging on the explicit spec while the same violation class persists.
-fn minimise(check: &str, spec: Value, class: &str, jobs: usize, timeout: Duration) -> (Value, u64) {
+fn minimise(check: &str, spec: Value, class: &str, jobs: usize, timeout: Duration, findings: &run::Findings) -> (Value, u64) {
     let t0 = Instant::now();
     let mut cur = spec;
     let mut rounds = 0u64;
@@ -204,7 +210,7 @@ fn minimise(check: &str, spec: Value, class: &str, jobs: usize, timeout: Duratio
                     next = Some(cands[i].clone());
                     break;
                 }
-            } else if r.outcome == "ok" && has_class(r, class) {
+            } else if r.outcome == "ok" && has_unaccounted(r, check, class, findings) {
                 next = Some(r.spec.clone().unwrap_or_else(|| cands[i].clone()));
                 break;
             }
@@ -375,7 +381,7 @@ fn cmd_check(args: &[String]) -> i32 {
         let (min_spec, rounds) = if spec.is_null() || spec.get("spec").is_none() && spec.get("check").is_some() && spec.get("world").is_none() {
             (spec.clone(), 0)
         } else {
-            minimise(&id, spec.clone(), class, jobs, timeout)
+            minimise(&id, spec.clone(), class, jobs, timeout, &findings)
         };
         // verify that the minimised spec reproduces in a fresh process
         let verify = run_requests(vec![json!({"check": id, "spec": min_spec, "idx": idx})], 1, timeout).remove(0);
@@ -383,7 +389,13 @@ fn cmd_check(args: &[String]) -> i32 {
         let (final_spec, detail, reproduced) = if hung {
             (min_spec.clone(), format!("{} ({})", v.detail, verify.outcome), true)
         } else if has_class(&verify, class) {
-            let d = verify.violations.iter().find(|x| &x.class == class).map(|x| x.detail.clone()).unwrap_or_default();
+            let d = verify
+                .violations
+                .iter()
+                .find(|x| &x.class == class && findings.open_match(&id, &x.sig).is_none())
+                .or_else(|| verify.violations.iter().find(|x| &x.class == class))
+                .map(|x| x.detail.clone())
+                .unwrap_or_default();
             (verify.spec.clone().unwrap_or(min_spec), d, true)
         } else {
             (spec.clone(), v.detail.clone(), class == "did-not-terminate")
